@@ -131,3 +131,32 @@ func (g *Gate) Stalls() []cid.Cid {
 	defer g.mu.Unlock()
 	return append([]cid.Cid(nil), g.stalls...)
 }
+
+// ReleaseAvoiding is Release, but requests whose CID satisfies avoid are only
+// chosen when nothing else is outstanding (slow blocks complete last).
+func (g *Gate) ReleaseAvoiding(k int, avoid func(cid.Cid) bool) (ok bool, outOfOrder bool) {
+	g.mu.Lock()
+	var cand []int
+	for i, p := range g.pending {
+		if avoid == nil || !avoid(p.c) {
+			cand = append(cand, i)
+		}
+	}
+	if len(cand) == 0 {
+		g.mu.Unlock()
+		return g.Release(k)
+	}
+	if k < 0 {
+		k = -k
+	}
+	ix := cand[k%len(cand)]
+	p := g.pending[ix]
+	g.pending = append(g.pending[:ix], g.pending[ix+1:]...)
+	g.released = append(g.released, p.c)
+	g.mu.Unlock()
+	if g.events != nil {
+		g.events.Add(1)
+	}
+	close(p.ch)
+	return true, ix != 0
+}
